@@ -114,11 +114,14 @@ def out_ids(out, S_ids_set, sel, per_match, step):
     return ids
 
 
-def one_step(ctx, st, S, pat, rep, R, step, seed, atol, replace_all, case_w, pair_class, label=""):
+def one_step(ctx, st, S, pat, rep, R, step, seed, atol, replace_all, case_w, pair_class, label="", fraction=1.0):
     """run one real replacement and compare with the model -> (result Atoms | None, number of matches replaced)"""
     P = patterns.to_atoms(pat)
-    obs = replcase.observe_replace(S, P, R, seed, atol=atol, replace_all=replace_all)
+    events.SCHEDULE["sample"] = ["reversed", "real"][seed % 2]
+    obs = replcase.observe_replace(S, P, R, seed, atol=atol, replace_all=replace_all, **({} if fraction >= 1.0 else {"replace_fraction": fraction}))
     st.count("replace_calls")
+    if fraction < 1.0:
+        st.count("partial_replacements")
     if obs["found"] is None or replcase.matches_overlap(obs["found"]):
         st.count("not_judged_overlap_or_no_search")
         return None, 0
@@ -241,7 +244,7 @@ def run_case(case, ctx):
                         st.count("forced_override_terms")
                     break
     w = {"case": {k2: case[k2] for k2 in ("cell", "pattern", "repl", "chain", "pair", "replace_all")}, "planted": built["planted"]}
-    out, nrep = one_step(ctx, st, S, pat, rep, R, 1, case["s"], atol, case["replace_all"], w, pair_class)
+    out, nrep = one_step(ctx, st, S, pat, rep, R, 1, case["s"], atol, case["replace_all"], w, pair_class, fraction=[1.0, 1.0, 1.0, 0.67, 0.5][(case["s"] // 3) % 5])
     nontrivial = nrep > 0
     # (after a 'cif_like' first step the intermediate structure is itself the known finding: not a consistent input for a second step)
     if out is not None and case["chain"] and abs(nrep) > 0 and len(rep["elements"]) >= 1 and pair_class != "cif_like":
@@ -346,6 +349,8 @@ def requirements(stats, tier):
         need.append("documented Example 3 not completed")
     if stats.get("existing_terms_touching_matches") < 200 or stats.get("pattern_terms_inserted") < 500:
         need.append("too few pre-existing terms at matches (%d) or pattern terms inserted (%d)" % (stats.get("existing_terms_touching_matches"), stats.get("pattern_terms_inserted")))
+    if stats.get("partial_replacements") < 30:
+        need.append("partial replacements: %d" % stats.get("partial_replacements"))
     if stats.get("forced_override_terms") < 10:
         need.append("forced overrides: %d" % stats.get("forced_override_terms"))
     if stats.nseen("pair_class") < 3:
